@@ -41,7 +41,8 @@ def extras(ev):
 def apply_event(rig, ev):
     """Returns a cleanup callable (run after the observation).  A search event may carry
     {'fault': c} (the write to child c fails in drain: connection reset) or {'slow': [c, ...]}
-    (these children do not read: drain() of their connection blocks during this step)."""
+    (these children do not read: drain() of their connection blocks during this step) or {'closing': c} (child c is in
+    the CLOSING state while the request arrives: its disconnect() waits in wait_closed until the end of the step)."""
     from aioslsk.protocol import messages as M
     x = extras(ev)
     if x:
@@ -50,6 +51,8 @@ def apply_event(rig, ev):
             rig.drain_fault(x['fault'], True)
         for c in x.get('slow', []):
             rig.child_hold(c)
+        if 'closing' in x:
+            rig.begin_close(x['closing'])       # CLOSING reported, CLOSED not yet: still in children
         _apply(rig, ev)
 
         def cleanup():
@@ -57,6 +60,8 @@ def apply_event(rig, ev):
                 rig.drain_fault(x['fault'], False)
             for c in x.get('slow', []):
                 rig.child_release(c)
+            if 'closing' in x:
+                rig.finish_close(x['closing'])
         return cleanup
     _apply(rig, ev)
     return lambda: None
@@ -142,6 +147,8 @@ def run_impl(events):
             o, closed = observe(rig, ev, closed)
             cleanup()
             o['late'] = late_writes(rig)
+            if 'closing' in extras(ev):
+                o['after'] = c13.observe(rig, closed)[0]
             obs.append(o)
         return obs
     finally:
@@ -158,6 +165,8 @@ def gen_and_run(rng, n, style):
         o, cl = observe(rig, ev, closed)
         cleanup()
         o['late'] = late_writes(rig)
+        if 'closing' in extras(ev):
+            o['after'] = c13.observe(rig, cl)[0]
         closed[:] = cl
         events.append(ev)
         obs.append(o)
@@ -194,17 +203,24 @@ def gen_and_run(rng, n, style):
             x = []
             if len(kids) >= 2 and rng.random() < (0.6 if style == 'faults' else 0.15):
                 # a write fault on one child (not the last one), or children that do not read, during the fan-out
-                if rng.random() < 0.5:
+                k = rng.random()
+                if k < 0.35:
                     x = [{'fault': rng.choice(kids[:-1])}]
+                elif k < 0.7:
+                    x = [{'closing': rng.choice(kids)}]      # any position in the list
                 else:
                     x = [{'slow': sorted(rng.sample(kids[:-1], rng.randrange(1, len(kids))))}]
             if r < 0.22:
                 do(['SS', rng.choice([0, 49, 5]), u, t, q] + x)
             elif r < 0.55 and live:
                 src = st['parent'] if (st['parent'] is not None and rng.random() < 0.8) else rng.choice(live)
+                if x and x[0].get('closing') == src:
+                    x = []
                 do(['DS', src, rng.choice([49, 0]), u, t, q] + x)
             elif r < 0.72 and live:
                 src = st['parent'] if (st['parent'] is not None and rng.random() < 0.8) else rng.choice(live)
+                if x and x[0].get('closing') == src:
+                    x = []
                 do(['LS', src, rng.choice([3, 3, 3, 4, 93]), rng.choice([0, 49]), u, t, q] + x)
             elif r < 0.80:
                 c = next_c[0]; next_c[0] += 1
@@ -248,11 +264,11 @@ def monitor(events, obs):
                 add('search-sent-without-request', 'a search request was written although none arrived', {'step': i, 'event': ev, 'sent': qs})
             if o['replies']:
                 add('reply-without-request', 'a search reply was written although no request arrived', {'step': i, 'event': ev})
-            prev = o
+            prev = o.get('after', o)
             continue
         carrier, src, code_ok, u, t, q, unk = search_fields(ev)
         own = (u == 'me')
-        children = [c for c in prev['children'] if c in prev['live']]
+        children = [c for c in prev['children'] if c in prev['live'] and c != extras(ev).get('closing')]
         det = {'step': i, 'event': ev, 'children': prev['children'], 'parent': prev['parent'], 'sent': qs, 'replies': o['replies']}
         if src is not None and src not in prev['live']:
             # the carrier connection is already closed: nothing is delivered, nothing may happen
@@ -297,7 +313,7 @@ def monitor(events, obs):
                         add('reply-wrong-ticket', 'reply carries another ticket', dict(det, want=want))
                     else:
                         add('reply-content', 'reply user/lists differ from the shares query', dict(det, want=want))
-        prev = o
+        prev = o.get('after', o)
     return out
 
 
@@ -328,13 +344,21 @@ def coq_cases(cases):
                 val = (tuple(sorted(iid(f) for f in o['oracle'][0])), tuple(sorted(iid(f) for f in o['oracle'][1])))
                 if table.setdefault(key, val) != val:
                     raise BrokenTie('correspondence:C14', f'shares query is not a function of (user, query): {u!r} {q!r}')
+                cl = extras(ev).get('closing')
+                if cl is not None:
+                    a = o['after']
+                    if sorted(set(o['closed']) | set(a['closed'])) != [cl] or a['conn'] or o['srv'] or a['srv']:
+                        raise BrokenTie('correspondence:C14', f'closing child {cl}: unexpected effects closed={o["closed"]}/{a["closed"]} conn={a["conn"]}')
+                    evs.append(f'Tree (ConnClosed {cl}%nat)')
+                    os_.append(f'mkObs14 ({c13.obs_coq(dict(a, srv=[], conn={}, closed=[cl]), qid)}) []')
+                    o_model = dict(a, srv=[], conn=o['conn'], closed=[], replies=o['replies'])
                 if ev[0] == 'SS':
                     evs.append(f'ServerSearch {ev[1]}%Z {name_id(u)}%nat {t}%Z {qid(q)}%nat')
                 elif ev[0] == 'DS':
                     evs.append(f'DistSearch {ev[1]}%nat {ev[2]}%Z {name_id(u)}%nat {t}%Z {qid(q)}%nat')
                 else:
                     evs.append(f'LegacySearch {ev[1]}%nat {ev[2]}%Z {ev[3]}%Z {name_id(u)}%nat {t}%Z {qid(q)}%nat')
-                if o['closed']:
+                if o['closed'] and cl is None:
                     # a write fault closed a child during the fan-out: for the model this is the search (tree unchanged,
                     # the request was written to every child) followed by the loss of that connection
                     fc = extras(ev).get('fault')
@@ -355,7 +379,7 @@ def coq_cases(cases):
                                     f'{listlit(str(x) + "%nat" for x in sorted(iid(f) for f in r["locked"]))}')
                 os_.append(f'mkObs14 ({c13.obs_coq(om, qid)}) {listlit(reps)}')
             evs.extend(x[0] for x in extra_close)
-            prev = o
+            prev = o.get('after', o)
         rows.append(f' ({idx}%nat, {K}%nat, {listlit(evs)},\n  {listlit(os_)})')
     nl = lambda xs: listlit(f'{x}%nat' for x in xs)
     tab = listlit(f'(({u}%nat, {q}%nat), ({nl(v)}, {nl(l)}))' for (u, q), (v, l) in sorted(table.items()))
@@ -467,7 +491,7 @@ def run(run: Run):
                     for j, (e, o) in enumerate(zip(events, obs)):
                         if j >= k2:
                             break
-                        if is_search(e) and o['closed']:
+                        if is_search(e) and (o['closed'] or 'after' in o):
                             k2 -= 1
                     k2 = min(max(k2, 0), len(events) - 1)
                     run.add_broken('correspondence:C14 model(step14) vs DistributedNetwork+SearchManager',
